@@ -7,8 +7,8 @@
    harness's knowledge for glob/regex/mode/date/user/file operands).  The model has no panic outcome:
    every function is total; that the implementation never panics is established by the correspondence
    check under catch_unwind on every run, not by these theorems. *)
-Require Import Tables TablesOk Expr Expr3 Expr4 Expr5 ExprSide Args ArgsProofs RegexRefs RegexRefsSpec RegexRefsProofs.
-From Coq Require Import List Arith Bool.
+Require Import Tables TablesOk Expr Expr3 Expr4 Expr5 ExprSide Args ArgsProofs RegexRefs RegexRefsSpec RegexRefsProofs RegexIntervals RegexIntervalsProofs.
+From Coq Require Import List Arith Bool NArith.
 Import ListNotations.
 
 (* whatever is accepted is lexically valid and a sentence of the expression grammar (or empty / help) *)
@@ -153,4 +153,26 @@ Example C11_back_reference_witness :
   (* emacs "[[:x:]\(a\)]\1" (no classes: the bracket expression ends at the first "]") and the same in posix-basic *)
   back_references_ok false false false [91; 91; 58; 120; 58; 93; 92; 40; 97; 92; 41; 93; 92; 49] = true /\
   back_references_ok false false true [91; 91; 58; 120; 58; 93; 92; 40; 97; 92; 41; 93; 92; 49] = false.
+Proof. vm_compute. repeat split. Qed.
+
+(* An invalid operand to -regex: an interval.  [RegexIntervals] is the model of check_intervals (compared with the code through a
+   hook on every sequence of up to four of the pieces the check tells apart).  Its reading of the bounds is capped (everything
+   above RE_DUP_MAX is refused alike); in terms of the numbers written it refuses exactly a lower bound above the upper one and
+   a bound above RE_DUP_MAX = 32767.  And the rules of posix-basic are those of grep with refusals on top: what posix-basic
+   accepts, grep accepts. *)
+Theorem C11_interval_bounds : forall low high, low <> [] -> high <> [] ->
+  (value high < value low \/ re_dup_max < value low \/ re_dup_max < value high)%N <->
+  ((dval 0 high <? dval 0 low)%N || (re_dup_max <? dval 0 low)%N || (re_dup_max <? dval 0 high)%N) = true.
+Proof. exact reversed_or_large_refused. Qed.
+Print Assumptions C11_interval_bounds.
+Theorem C11_posix_basic_refines_grep : forall nl p,
+  basic_ok true nl (IT true false false) p = true -> basic_ok false nl (IT true false false) p = true.
+Proof. exact posix_basic_refines_grep. Qed.
+Print Assumptions C11_posix_basic_refines_grep.
+(* grep: "\{2,1\}" at the start is a brace (accepted), "a\{2,1\}" is refused; posix-basic: "\{1\}" at the start, "a**" refused,
+   "a*\+" accepted; posix-extended: "a{1,32768}" refused, "[{2,1}]" accepted *)
+Example C11_interval_witness :
+  intervals_ok 1 [92; 123; 50; 44; 49; 92; 125] = true /\ intervals_ok 1 [97; 92; 123; 50; 44; 49; 92; 125] = false /\
+  intervals_ok 2 [92; 123; 49; 92; 125] = false /\ intervals_ok 2 [97; 42; 42] = false /\ intervals_ok 2 [97; 42; 92; 43] = true /\
+  intervals_ok 3 [97; 123; 49; 44; 51; 50; 55; 54; 56; 125] = false /\ intervals_ok 3 [91; 123; 50; 44; 49; 125; 93] = true.
 Proof. vm_compute. repeat split. Qed.
